@@ -82,7 +82,7 @@ def genElems (c : Ctx) (k : Nat) : List (List Member) → Nat → Except GenErr 
   | acts :: rest, b =>
     let prev := (c.pats[b]?.map (·.var)).getD (.r b)
     match genBranchStep c.kind.isAsync b prev acts with
-    | .error e => .error e
+    | .error e => .error (.internal e)
     | .ok r =>
       match genElems c k rest (b + 1) with
       | .error e => .error e
